@@ -24,7 +24,7 @@ import (
 
 func main() {
 	r := ev.New("C16", "exploration")
-	r.Rule("history buffer: one evaluation per history = capacity from {1,2,3,7,100,101,1000} x 2-12 steps of record(n) / ResetWithIndex(j below, inside, at the edge of, far above the window) / restart (new buffer on the same store), n chosen around the capacity and around the flush interval, every step followed by RecordsFrom on every window edge +-1 (distinct = capacity x sequence of step classes: fill below/exactly/over capacity, reset class, restart capacity); concurrent rounds (distinct = capacity x length); two writers under the gate scheduler: records up to a flush point x (ResetWithIndex far ahead / inside the window | records across another flush point) x both start orders x every release order of the parked index saves (distinct = case x start order x released sequence). sync path: one evaluation per scenario phase = leader region set size from {0,1,99,100,101,199,200,201,250,1000} x branch (full sync / incremental from the log) x leaders (all, none, mixed) x flow statistics, then bursts of changes (leader transfer, conf change, split, merge, flow) through RunServer's notifier, then disconnect + changes + reconnect, also with huge ids / prefix-related keys, 2500-5000 regions and a leader log wrapped exactly up to / past the follower's index (distinct = those parameters). overlapped and faulty sync histories on long-lived members (one evaluation per checkpoint): follower connecting while bursts are recorded inside the leader's answer (gated at stream.Send) or pumped freely, reconnect churn under broadcast, leadership moving between three long-lived members (ex-follower serving from its own log, a follower sleeping through a term), stream.Send failing in a full sync / catch-up / broadcast, follower region storage failing mid-message, follower restart on its persisted storage and index (distinct = family x variant x checkpoint)")
+	r.Rule("history buffer: one evaluation per history = capacity from {1,2,3,7,100,101,1000} x 2-12 steps of record(n) / ResetWithIndex(j below, inside, at the edge of, far above the window) / restart (new buffer on the same store), n chosen around the capacity and around the flush interval, every step followed by RecordsFrom on every window edge +-1 (distinct = capacity x sequence of step classes: fill below/exactly/over capacity, reset class, restart capacity); concurrent rounds (distinct = capacity x length); two writers under the gate scheduler: records up to a flush point x (ResetWithIndex far ahead / inside the window | records across another flush point) x both start orders x every release order of the parked index saves (distinct = case x start order x released sequence). sync path: one evaluation per scenario phase = leader region set size from {0,1,99,100,101,199,200,201,250,1000} x branch (full sync / incremental from the log) x leaders (all, none, mixed) x flow statistics, then bursts of changes (leader transfer, conf change, split, merge, flow) through RunServer's notifier, then disconnect + changes + reconnect, also with huge ids / prefix-related keys, 2500-5000 regions and a leader log wrapped exactly up to / past the follower's index (distinct = those parameters). overlapped and faulty sync histories on long-lived members (one evaluation per checkpoint): follower connecting while bursts are recorded inside the leader's answer (gated at stream.Send) or pumped freely, reconnect churn under broadcast, leadership moving between three long-lived members (ex-follower serving from its own log, a follower sleeping through a term), stream.Send failing in a full sync / catch-up / broadcast, follower region storage failing mid-message, follower restart on its persisted storage and index (also with the server context cancelled first, double stop / double close, and the leader log wrapped exactly to the persisted index -1/0/+1), leader restart below the follower's index followed by one big batch, two followers binding at once under broadcast with a stream being cleaned up (distinct = family x variant x checkpoint). one-field updates: versions differing from the previous in exactly one field (each flow counter, a counter going to zero, leader, conf_ver, version, peer list, peer role, end key), each alone in a message and all inside one message. gated buffer phase with a third party: a reader queued with the second writer behind the writer parked in its index save, four start orders")
 	r.Assume("the history buffer is driven through the build-tag guarded hooks VerifNewHistoryBuffer/Record/RecordsFrom/ResetWithIndex/NextIndex on an in-memory kv.Base; no storage faults are injected; reset indexes stay below 2^40")
 	r.Assume("sync path: both ends are pd's RegionSyncer over a loopback gRPC connection; the two syncer.Server implementations are harness code configured like the default server (region storage on LevelDB in a temp dir, use-region-storage on); the leader's region set does not change while a full synchronisation runs; changes pushed through the notifier always carry a leader (a heartbeat always has one)")
 	r.Assume("overlapped families: the harness owns the ground truth of every region (every version has unique flow statistics, epochs monotone) and applies each change to the current leader's cache before notifying; a follower is judged against the last version SENT to it (all versions are admissible for messages whose delivery a checkpoint did not confirm); regions never sent to it (broadcast before its stream was bound, dropped by an injected error, outside the wrapped log) and older records sent again are not judged")
